@@ -347,7 +347,13 @@ impl State for FileState {
             command,
         );
         let bytes = entry.to_bytes();
+        #[cfg(feature = "iggy_verif")]
+        crate::verif::chaos_point("state.between_index_and_append").await;
         self.entries_count.fetch_add(1, Ordering::SeqCst);
+        #[cfg(feature = "iggy_verif")]
+        if crate::verif::inject_fault("state.append") {
+            return Err(IggyError::CannotAppendToFile);
+        }
         self.persister
             .append(&self.path, &bytes)
             .await
